@@ -24,6 +24,10 @@ QUERIES = [
     ("SELECT DISTINCT id FROM relations JOIN features ON features.id = relations.child WHERE relations.parent = ? AND relations.level = ? ORDER BY start", ("g1", 2)),
     ("SELECT id FROM features WHERE (start BETWEEN ? AND ?) OR (end BETWEEN ? AND ?) ORDER BY id", (10, 100, 10, 100)),
     ("SELECT id FROM features WHERE featuretype IN (?, ?) AND strand = ? ORDER BY seqid, start", ("exon", "gene", "+")),
+    ('SELECT "featuretype", COUNT(*) FROM features GROUP BY "featuretype"', ()),
+    ("SELECT seqid, strand, COUNT(*), MIN(start) FROM features GROUP BY seqid, strand LIMIT 3", ()),
+    ("SELECT featuretype, COUNT(*) FROM features GROUP BY featuretype LIMIT ?", (2,)),
+    ("SELECT id FROM features ORDER BY id LIMIT 4 OFFSET 2", ()),
 ]
 
 
